@@ -17,6 +17,7 @@ func genCfg(t *rapid.T) sim.Config {
 		WriterBuf: rapid.SampledFrom([]int{0, 1, 40, 1}).Draw(t, "wbuf"),
 		AppendEnc: rapid.IntRange(0, 3).Draw(t, "appendenc") == 0,
 		RawAPI:    rapid.IntRange(0, 4).Draw(t, "rawapi") == 0,
+		Stats:     rapid.IntRange(0, 3).Draw(t, "stats") == 0,
 	}
 }
 
